@@ -534,5 +534,7 @@ class Program:
 
 
 def _key(c):
-    """JSON constant -> Python dispatch key (lists become tuples)."""
+    """JSON constant -> Python dispatch key (lists become tuples; {"tuple": [...]} is a tuple-valued alias)."""
+    if isinstance(c, dict) and "tuple" in c:
+        return tuple(c["tuple"])
     return tuple(c) if isinstance(c, list) else c
